@@ -39,9 +39,9 @@ def model_check(chk, cfgs, out):
 
 def schedules(chk, q):
     """Fault schedules from Tunnel_Gen behaviours."""
-    plan = [("Gen_two.cfg", 110 if q else 1600, 110, ("A", "B")),
-            ("Gen_one.cfg", 90 if q else 1400, 110, ("A",)),
-            ("Gen_long.cfg", 24 if q else 500, 200, ("A",))]
+    plan = [("Gen_two.cfg", 200 if q else 1600, 110, ("A", "B")),
+            ("Gen_one.cfg", 160 if q else 1400, 110, ("A",)),
+            ("Gen_long.cfg", 40 if q else 500, 200, ("A",))]
     out, infos = [], []
     with concurrent.futures.ThreadPoolExecutor(max_workers=4) as ex:
         futs = [ex.submit(corerig.simulate, chk, SPECDIR, "Tunnel_Gen", cfg, num, depth, chk.seed * 100 + i)
@@ -54,7 +54,7 @@ def schedules(chk, q):
     for (cfg, num, depth, sessions), bs in zip(plan, behs):
         for bi, beh in enumerate(bs):
             rng = random.Random("%d/%s/%d" % (chk.seed, cfg, bi))
-            sc, info = corerig.project_tunnel(beh, rng, sessions=sessions, name="c01-%s-%d" % (cfg[:-4], bi), big=0.03 if q else 0.06)
+            sc, info = corerig.project_tunnel(beh, rng, sessions=sessions, name="c01-%s-%d" % (cfg[:-4], bi), big=0.04 if q else 0.06)
             sc["origin"] = {"module": "Tunnel_Gen", "config": cfg, "seed": chk.seed * 100,
                             "steps": [[a, b] for a, b in beh if a in ("Pop", "WriteId", "WriteIdFails", "Cut", "Freeze", "AnswerLost", "StaleClose", "SrvDetach")]}
             out.append(sc)
